@@ -101,11 +101,28 @@ def rule_R1(ctx, f, b):
 
 
 def _hash_seqs(b):
-    """{hasher term: (write sites, finish site, symbolic sequence of hashed components)}"""
+    """{hasher term: (write sites, finish site, symbolic sequence of hashed components)}.  A literal byte written right before a component
+    (hash_common.literal_prefixes) becomes the projection step ("prefix", byte) of that component."""
     from pvrules import seqeval
     out = {}
+    pref = hc.literal_prefixes(b.facts, b)
     for h, ws, fin in hashers(b):
-        out[h] = (ws, fin, seqeval.sink_seq(b, ws, lambda s_: s_.args[1]))
+        seq = seqeval.sink_seq(b, ws, lambda s_: s_.args[1])
+        if seq is not None and any(w.bb in pref for w in ws):
+            seq = []
+            def anchor(c):
+                lp_ = hc.innermost_loop(b, c)
+                return lp_[0].bb if lp_ is not None else c.bb
+            for w in sorted(ws, key=lambda c: len([d for d in ws if d is not c and (b.dominates(anchor(d), anchor(c)) if anchor(d) != anchor(c) else b.dominates(d.bb, c.bb))])):
+                part = seqeval.sink_seq(b, [w], lambda s_: s_.args[1])
+                if part is None:
+                    seq = None
+                    break
+                if w.bb in pref:
+                    step = (("prefix", pref[w.bb][1]),)
+                    part = [("each", sg[1], sg[2] + step, sg[3]) if sg[0] == "each" else ("elem", ("prefixed", pref[w.bb][1], sg[1])) for sg in part]
+                seq.extend(part)
+        out[h] = (ws, fin, seq)
     return out
 
 
@@ -147,51 +164,68 @@ def rule_R3(ctx, f, b):
            "id and dim_hash are each assigned once, from two different hashers", site=b.raw["span"]["at"])
     if not idh or not dimh:
         return
-    # the set of label names
-    nameset = None
+    # the sets of label names and what each of them holds: raw const names (keys of param 4), raw variable names (elements of param 3 / desc.variable_labels),
+    # variable names with a '$' put in front by format!
+    sets = {}
     for c in b.calls_to("BTreeSet::insert"):
-        nameset = peel(c.args[0])
+        S = peel(c.args[0])
+        v = c.args[1]
+        pv = peel(v)
+        e = elem_of(pv)
+        fm = [s_ for s_ in subterms(v) if isinstance(s_, tuple) and s_ and s_[0] == "const" and s_[1] and s_[1].startswith('b"')]
+        disp = [s_ for s_ in subterms(v) if isinstance(s_, tuple) and s_ and s_[0] == "call" and is_call(s_, "Argument::new_display")]
+        if fm and disp:
+            ee = elem_of(peel(disp[0][2][0]))
+            if ee and peel(ee[0]) in (P(3),) and fm[0][1] == 'b"\\x01$\\xc0\\x00"':
+                kind = "$variable-name"
+            else:
+                kind = "?fmt" + fm[0][1]
+        elif e and peel(e[0]) == P(4) and e[1] and "keys" in e[1]:
+            kind = "const-name"
+        elif e and peel(e[0]) == P(3) and not [a for a in e[1] if a not in ("iter", "into_iter")] and not e[2]:
+            kind = "variable-name"
+        else:
+            kind = "?" + show(v)
+        sets.setdefault(S, []).append((kind, c))
+    kinds_of = {S: {k for k, _ in v} for S, v in sets.items()}
 
     seqs = _hash_seqs(b)
     ids, dims = seqs.get(idh[0], (None, None, None))[2], seqs.get(dimh[0], (None, None, None))[2]
     from pvrules import seqeval
-    help_terms = [P(2), ("field", ("var", None), "help")]
 
     def is_help(t):
         t = peel(t)
         return t == P(2) or (isinstance(t, tuple) and len(t) == 3 and t[0] == "field" and t[2] == "help")
-    id_ok = ids is not None and len(ids) == 2 and ids[0] == ("elem", P(1)) and ids[1][0] == "each" and peel(ids[1][1]) == nameset and ids[1][2] == (("lookup", P(4)),)
-    dim_ok = dims is not None and len(dims) == 2 and dims[0][0] == "elem" and is_help(dims[0][1]) and dims[1][:3] == ("each", nameset, ())
+    # id: the name, then the const label values in the order of a sorted set that holds the const names (it may later also receive the '$'-prefixed variable names)
+    id_set = peel(ids[1][1]) if (ids is not None and len(ids) == 2 and ids[1][0] == "each") else None
+    id_ok = id_set is not None and ids[0] == ("elem", P(1)) and ids[1][2] == (("lookup", P(4)),) and "const-name" in kinds_of.get(id_set, set()) \
+        and kinds_of.get(id_set, set()) <= {"const-name", "$variable-name"}
     ctx.ob(rid, "id|sources", id_ok,
            "the id must hash exactly the fully-qualified name and then the const label values taken in label-name order (found %s)" % seqeval.show_seq(ids), site=idh[2].span)
-    ctx.ob(rid, "dim|sources", dim_ok, "the dim hash must hash exactly the help text and then the sorted label-name set (found %s)" % seqeval.show_seq(dims), site=dimh[2].span)
+    # dim: the help text, then every const name as it is and every variable name with '$' in front: one sorted set holding both, or one sorted set each (the '$' is then
+    # either part of the stored string or a literal byte hashed right before the name); a const name cannot start with '$', so the two kinds cannot alias
+    dim_form = None
+    if dims is not None and len(dims) >= 2 and dims[0][0] == "elem" and is_help(dims[0][1]) and all(sg[0] == "each" for sg in dims[1:]):
+        parts = sorted(((tuple(sorted(kinds_of.get(peel(sg[1]), {"?"}))), sg[2]) for sg in dims[1:]), key=str)
+        if parts == [(("$variable-name", "const-name"), ())]:
+            dim_form = "one-set"
+        elif parts == sorted([(("const-name",), ()), (("variable-name",), (("prefix", 0x24),))], key=str) or parts == sorted([(("const-name",), ()), (("$variable-name",), ())], key=str):
+            dim_form = "two-sets"
+    ctx.ob(rid, "dim|sources", dim_form is not None, "the dim hash must hash exactly the help text and then the sorted label-name set(s) (found %s)" % seqeval.show_seq(dims), site=dimh[2].span)
     # the const values are looked up while the name set holds the const names only (the '$'-prefixed variable names are inserted later)
     if id_ok:
-        var_ins = [c for c in b.calls_to("BTreeSet::insert") if [s_ for s_ in subterms(c.args[1]) if isinstance(s_, tuple) and s_ and s_[0] == "call" and is_call(s_, "Argument::new_display")]]
+        var_ins = [c for k, c in sets.get(id_set, []) if k == "$variable-name"]
         it_bb = ids[1][3]
         ok_order = it_bb is not None and all(it_bb not in b.reach(v.bb) for v in var_ins)
         ctx.ob(rid, "id|values-before-variable-names", ok_order, "the const label values must be collected before the '$'-prefixed variable names enter the name set", site=idh[2].span)
-    # what the name set holds: raw const names (keys of param4) and '$'+variable names (elements of param3 / desc.variable_labels)
-    kinds = set()
-    for c in b.calls_to("BTreeSet::insert"):
-        v = c.args[1]
-        pv = peel(v)
-        e = elem_of(pv)
-        if e and peel(e[0]) == P(4) and e[1] and "keys" in e[1]:
-            kinds.add("const-name")
-            continue
-        fm = [s for s in subterms(v) if isinstance(s, tuple) and s and s[0] == "const" and s[1] and s[1].startswith('b"')]
-        disp = [s for s in subterms(v) if isinstance(s, tuple) and s and s[0] == "call" and is_call(s, "Argument::new_display")]
-        if fm and disp:
-            ee = elem_of(peel(disp[0][2][0]))
-            if ee and peel(ee[0]) in (P(3),) and fm[0][1] == 'b"\\x01$\\xc0\\x00"':
-                kinds.add("$variable-name")
-                continue
-            kinds.add("?fmt" + fm[0][1])
-            continue
-        kinds.add("?" + show(v))
-    ctx.ob(rid, "dim|name-set-content", kinds == {"const-name", "$variable-name"},
-           "the label-name set must hold the raw const label names and the variable label names prefixed with '$' (so a const/variable mix cannot alias) — found %s" % sorted(kinds),
+    used = set()
+    for sg in (dims or [])[1:]:
+        if sg[0] == "each":
+            used |= kinds_of.get(peel(sg[1]), {"?"})
+            if ("prefix", 0x24) in sg[2]:
+                used = (used - {"variable-name"}) | ({"$variable-name"} if "variable-name" in kinds_of.get(peel(sg[1]), set()) else set())
+    ctx.ob(rid, "dim|name-set-content", used == {"const-name", "$variable-name"},
+           "the hashed label names must be the raw const label names and the variable label names prefixed with '$' (so a const/variable mix cannot alias) — found %s" % sorted(used),
            site=b.raw["span"]["at"])
     # all const names / variable names are inserted (loops over the whole collections)
     ctx.floor(rid, "BTreeSet::insert sites", len(b.calls_to("BTreeSet::insert")), 2)
